@@ -5,7 +5,7 @@ OnePAdj(s) == Cardinality({i \in 1..Len(s) : s[i] \in {"PAdj", "PAdjDict"}}) <= 
 ListsOver(K, n) == {[none |-> FALSE, l |-> s] :
                       s \in UNION {{s \in [1..m -> K] : NoDup(s) /\ OnePAdj(s)} : m \in 0..n}}
 NoneGiven == [none |-> TRUE, l |-> <<>>]
-\* exhaustive config: lists of <= 3 models over 4 kinds (23 lists + None)
+\* exhaustive config: duplicate-free lists of <= 3 models over 4 kinds with <= 1 adjustment (27 lists + None)
 MCGivens == ListsOver({"PAdj", "PAdjDict", "CovB", "P1"}, 3) \cup {NoneGiven}
 MCPhases == {"g", "gas", "G", "s", "S", "None"}
 MCSibPhases == {"g", "S"}
